@@ -357,6 +357,19 @@ func (w *worldA) attemptTM(n, x *core.Node, signer *core.Account, kind string) {
 	}
 }
 
+// tssProof chooses what the (for TSS clients meaningless) proof field carries: an attacker controls it.
+func (w *worldA) tssProof(signer *core.Account) ([]byte, string) {
+	switch w.s.Rng.Intn(4) {
+	case 0:
+		return []byte{}, "empty"
+	case 1:
+		return []byte(w.tss.Bech32()), "tss-address-string"
+	case 2:
+		return []byte(signer.Bech32()), "signer-address-string"
+	}
+	return []byte("ignored"), "junk"
+}
+
 func (w *worldA) attemptTSS(n *core.Node, signer *core.Account, kind string) {
 	s := w.s
 	isTSS := signer == w.tss
@@ -389,9 +402,10 @@ func (w *worldA) attemptTSS(n *core.Node, signer *core.Account, kind string) {
 		_ = tok
 		p := packettypes.Packet{SrcChain: tssChain, DstChain: n.Name, Sequence: w.tssQ, Sender: "0xsender", TransferData: tdb, CallData: []byte{}, CallbackAddress: "", FeeOption: 0}
 		bz, _ := p.ABIPack()
-		msg := packettypes.NewMsgRecvPacket(bz, []byte("ignored"), clienttypes.NewHeight(0, 1), signer.Acc)
-		o := s.Deliver(n, signer, fmt.Sprintf("tss-recv #%d", w.tssQ), msg)
-		w.judge(n, signer, tssChain, kind, o, exp, "")
+		proof, pv := w.tssProof(signer)
+		msg := packettypes.NewMsgRecvPacket(bz, proof, clienttypes.NewHeight(0, 1), signer.Acc)
+		o := s.Deliver(n, signer, fmt.Sprintf("tss-recv #%d proof=%s", w.tssQ, pv), msg)
+		w.judge(n, signer, tssChain, kind, o, exp, "/proof="+pv)
 	case "ack":
 		// a real packet n -> tss-chain, then an acknowledgement "from" the TSS chain
 		sp := pkt.SendSpec{Src: n, Dst: n, DstName: tssChain, User: s.RandUser()}
@@ -404,9 +418,10 @@ func (w *worldA) attemptTSS(n *core.Node, signer *core.Account, kind string) {
 		p := ps[0]
 		a := packettypes.NewAcknowledgement(0, []byte{}, "", signer.Bech32(), 0)
 		ab, _ := a.ABIPack()
-		msg := packettypes.NewMsgAcknowledgement(p.Bytes, ab, []byte("ignored"), clienttypes.NewHeight(0, 1), signer.Acc)
-		o := s.Deliver(n, signer, "tss-ack "+p.Key(), msg)
-		w.judge(n, signer, tssChain, kind, o, exp, "")
+		proof, pv := w.tssProof(signer)
+		msg := packettypes.NewMsgAcknowledgement(p.Bytes, ab, proof, clienttypes.NewHeight(0, 1), signer.Acc)
+		o := s.Deliver(n, signer, "tss-ack "+p.Key()+" proof="+pv, msg)
+		w.judge(n, signer, tssChain, kind, o, exp, "/proof="+pv)
 	}
 }
 
